@@ -130,7 +130,8 @@ func listValues() []value {
 	e := func(f string, t sbom.Edge_Type, to ...string) *sbom.Edge { return &sbom.Edge{From: f, Type: t, To: to} }
 	base := func() *sbom.NodeList {
 		return mk([]*sbom.Node{n("a", "A"), n("b", "B"), n("c", "C")},
-			[]*sbom.Edge{e("a", sbom.Edge_contains, "b", "c"), e("b", sbom.Edge_dependsOn, "c"), e("a", sbom.Edge_dependsOn, "c")},
+			// two edge objects share (source a, type contains): equality must see both
+			[]*sbom.Edge{e("a", sbom.Edge_contains, "b", "c"), e("b", sbom.Edge_dependsOn, "c"), e("a", sbom.Edge_dependsOn, "c"), e("a", sbom.Edge_contains, "a")},
 			[]string{"b", "a"})
 	}
 	bi := 0
@@ -143,13 +144,24 @@ func listValues() []value {
 			nl.Nodes = append(nl.Nodes, b.Nodes[i])
 		}
 		vs = append(vs, value{Label: fmt.Sprintf("perm-nodes%v", p), Msg: nl, PermOf: bi})
-		b = base()
-		nl = mk(b.Nodes, nil, b.RootElements)
+	})
+	gen.Permutations(4, func(p []int) {
+		b := base()
+		nl := mk(b.Nodes, nil, b.RootElements)
 		for _, i := range p {
 			nl.Edges = append(nl.Edges, b.Edges[i])
 		}
 		vs = append(vs, value{Label: fmt.Sprintf("perm-edges%v", p), Msg: nl, PermOf: bi})
 	})
+	// deviations inside each of the edge objects that share (source,type) -- the generic generator only descends into the first and last element
+	for ei := 0; ei < 4; ei++ {
+		b := base()
+		b.Edges[ei].To = append(b.Edges[ei].To, "b")
+		vs = append(vs, value{Label: fmt.Sprintf("edge%d-extra-target", ei), Msg: b, PermOf: -1})
+		b = base()
+		b.Edges[ei].To = []string{"c"}
+		vs = append(vs, value{Label: fmt.Sprintf("edge%d-targets-replaced", ei), Msg: b, PermOf: -1})
+	}
 	{
 		b := base()
 		b.RootElements = []string{"a", "b"}
